@@ -107,8 +107,12 @@ impl BaseElement {
         let s_lo = s as u64;
         let z = (s_hi << 32) - s_hi;
         let (res, over) = s_lo.overflowing_add(z);
+        let res = res.wrapping_add(0u32.wrapping_sub(over as u32) as u64);
 
-        BaseElement::from_mont(res.wrapping_add(0u32.wrapping_sub(over as u32) as u64))
+        // res is congruent to the product but may still be in [M, 2^64); bring it into the
+        // canonical [0, M) range so that equality and serialization keep working
+        let (red, borrow) = res.overflowing_sub(M);
+        BaseElement::from_mont(if borrow { res } else { red })
     }
 }
 
